@@ -7,5 +7,6 @@ CONSTANTS
   MaxLen = 12
   MaxDepth = 4
   CheckDev = {}
+  FreshOnly = FALSE
 INVARIANTS LawsHold LawWellFormed Emit
 CHECK_DEADLOCK FALSE
